@@ -147,6 +147,13 @@ pub fn run(ctx: &Ctx, rep: &mut Report) {
                         }
                         _ => {}
                     }
+                    // sometimes a long time passes before the approval is relayed (again)
+                    if rng.chance(1, 5) {
+                        let d = rng.ledger_jump();
+                        if u.advance(d) {
+                            rep.count("advance-ledger-before-approval");
+                        }
+                    }
                     if let Some(a) = &approved {
                         if !g.approve_honest(&mut u, &ring, &[a.clone()]) {
                             rep.foreign("honest-approval-refused");
